@@ -1681,10 +1681,10 @@ class SQLModel:
         expr_right = concat_node.sources[1]
         if concat_node.id_column is not None:
             expr_left = expr_left.extend(
-                {concat_node.id_column: f'"{concat_node.a_name}"'}
+                {concat_node.id_column: data_algebra.expr_rep.Value(concat_node.a_name)}
             )
             expr_right = expr_right.extend(
-                {concat_node.id_column: f'"{concat_node.b_name}"'}
+                {concat_node.id_column: data_algebra.expr_rep.Value(concat_node.b_name)}
             )
             using_joint.add(concat_node.id_column)
             terms.update({concat_node.id_column: None})
